@@ -468,6 +468,8 @@ func (g *ProgGen) call(sc *gscope, depth int, self int) Cmd {
 		c["spell"] = "alias"
 	case 2:
 		c["spell"] = "attr"
+	case 3:
+		c["spell"] = "attr-alias"
 	}
 	if g.pick(4) == 0 {
 		c["paramattrs"] = true // {param key="k" value="expr"/} spelling where possible
@@ -526,7 +528,9 @@ func (g *ProgGen) Gen() *Program {
 		p.Glob["app.G_STR"] = VStr("g&s")
 	}
 	nt := 2 + g.pick(3)
-	nss := []string{"n.one", "n.two", "n.one.deep"}
+	// namespaces: a deeper one under an aliased prefix, and one whose last
+	// segment ("wo") occurs earlier as a substring ("two")
+	nss := []string{"n.one", "n.two", "n.one.deep", "n.two.wo"}
 	nsAttr := map[string]string{}
 	for _, ns := range nss {
 		nsAttr[ns] = []string{"", "", "true", "false", "contextual"}[g.pick(5)]
@@ -551,9 +555,13 @@ func (g *ProgGen) Gen() *Program {
 		}
 		g.tmplParams[name] = ps
 	}
+	// header params may carry a default value (parsed, not applied by this
+	// implementation: the param stays required)
+	hdrDefault := g.pick(3) == 0
 	p.Aliases["n.one"] = g.pick(2) == 0
 	p.Aliases["n.two"] = g.pick(2) == 0
 	p.Aliases["n.one.deep"] = g.pick(3) == 0
+	p.Aliases["n.two.wo"] = g.pick(3) == 0
 	for k, name := range g.tmplNames {
 		ps := g.tmplParams[name]
 		sc := &gscope{map[string]bool{}, map[string]bool{}, map[string]bool{}}
@@ -580,7 +588,7 @@ func (g *ProgGen) Gen() *Program {
 		}
 		body = append(pre, body...)
 		p.Bundle[name] = &Tmpl{Params: ps, Body: body, NsA: nsAttr[Namespace(name)],
-			TA: []string{"", "", "", "true", "false", "contextual"}[g.pick(6)], Hdr: g.pick(4) == 0}
+			TA: []string{"", "", "", "true", "false", "contextual"}[g.pick(6)], Hdr: g.pick(4) == 0, HdrDefault: hdrDefault}
 	}
 	p.Entry = g.tmplNames[nt-1]
 	p.Data = map[string]V{}
